@@ -37,10 +37,13 @@ for fam, alg, ctx, bits, iv in DIGESTS:
     CFG.consts[iv] = f"Impl.Sha2.{iv}"
 
 FB = dict(file=CU, scope=r"impl<const N: usize> FixedBuffer<N>", impl="FixedBuffer", impl_generics=["N"])
+# `digest_block` = `super::impl256::digest_block` / `super::impl512::digest_block` (`use super::impl256::*;`): the cfg dispatchers, GENERATED
+# for the baseline cfg set (x86_64 without sse4.1 / avx: the build the hand models describe) by tools/kernels/sha2_drivers.py into
+# Extracted/GlueSha2Drv.lean together with the reference drivers they call; tied to the hand models by Props/C01/GlueTieSha2Drv.lean
 EN256 = dict(file=E256, scope=r"impl Engine \{", impl="eng256::Engine",
-             externs={(None, "digest_block"): Extern("Impl.Sha2.Impl256.digest_block {0} {1}", [("mut", ("custom", "[u32;STATE_LEN]")), ("val", BYTES)], fallible=True)})
+             externs={(None, "digest_block"): Extern("GlueSha2Drv.Impl256.digest_block_baseline_src {0} {1}", [("mut", ("custom", "[u32;STATE_LEN]")), ("val", BYTES)], fallible=True)})
 EN512 = dict(file=E512, scope=r"impl Engine \{", impl="eng512::Engine",
-             externs={(None, "digest_block"): Extern("Impl.Sha2.Impl512.digest_block {0} {1}", [("mut", ("custom", "[u64;STATE_LEN]")), ("val", BYTES)], fallible=True)})
+             externs={(None, "digest_block"): Extern("GlueSha2Drv.Impl512.digest_block_baseline_src {0} {1}", [("mut", ("custom", "[u64;STATE_LEN]")), ("val", BYTES)], fallible=True)})
 M256 = dict(file=MOD, scope=r"impl Engine256 \{", impl="Engine256")
 M512 = dict(file=MOD, scope=r"impl Engine512 \{", impl="Engine512")
 
@@ -110,6 +113,7 @@ for fam, alg, ctx, bits, iv in DIGESTS:
 
 HEADER = """import CxVerif.Util.GlueRt
 import CxVerif.Impl.Sha2
+import CxVerif.Extracted.GlueSha2Drv
 namespace Cx.Extracted.GlueMd
 open Cx Cx.Impl
 set_option linter.unusedVariables false
